@@ -149,7 +149,7 @@ def gradient_factory(name):
             return sinh(self.domain)
     else:
         # Fallback to default
-        gradient = Functional.gradient
+        gradient = Functional.gradient.fget
 
     return gradient
 
